@@ -39,14 +39,21 @@ Proof. exact accumulate_no_panic. Qed.
 Print Assumptions PIPE_accumulate_no_panic.
 
 (* ... and neither does the whole build: since the HashTransformer re-checks the ids after renaming (/repo 9a490e0;
-   [hash_check] in the model) the id collision a hash suffix can produce is an ERROR and no longer reaches
-   IgnoreLocal's Factory.FromResourceSlice, which panics on it.  The other panic site of the model, the name-reference
-   setter on an empty candidate name (FieldSetter with a nil Value), is unreachable on well-formed trees: every
-   candidate is the view of a resource with a non-empty name. *)
+   [hash_check] in the model) the id collision a hash suffix can produce is an ERROR, and IgnoreLocal no longer panics
+   on a collision either (/repo 66fde0c).  The only panic sites left in the model are PrevIds (excluded by [tree_wf]:
+   comma-free names) and the name-reference setter on an empty candidate name (FieldSetter with a nil Value), which is
+   unreachable on well-formed trees: every candidate is the view of a resource with a non-empty name. *)
 Theorem PIPE_build_no_panic :
   forall nonstr o t, tree_wf t -> build nonstr o t <> Panic.
 Proof. exact build_no_panic. Qed.
 Print Assumptions PIPE_build_no_panic.
+
+(* IgnoreLocal has no panic route left, for ANY resource map (ill-formed documents, colliding ids): the kept
+   resources are Appended to a fresh ResMap and the id conflict is returned as an error (/repo 66fde0c; it was
+   panic(err) in Factory.FromResourceSlice) *)
+Theorem PIPE_ignore_local_no_panic : forall m, ignore_local m <> Panic.
+Proof. exact np_ignore_local_any. Qed.
+Print Assumptions PIPE_ignore_local_no_panic.
 
 (* regression witness of the repaired defect: a well-formed tree whose hash suffix collides with a file resource *)
 Theorem PIPE_clash_tree_regression :
